@@ -1,3 +1,4 @@
+import Gtree.Lemmas.SourceRefines
 import Gtree.Lemmas.ParseDoc
 import Gtree.Lemmas.Validate
 /-
@@ -47,4 +48,14 @@ theorem C12_blank_walk (f : Fmt) (doc : Bytes) (k : Option Nat)
 example : generate { doc := [] } = ⟨[], none, none⟩ :=
   C12_blank_generates_nothing [] (by simp [scanLines, rawLines, splitLF, scanLinesAux]) (by simp [scanLines, rawLines, splitLF, scanLinesAux])
 
+end Gtree
+
+namespace Gtree
+/-- Tie to the source, re-checked on every run: the total function `parse` (no panic outcome) the C12 theorems are about is `Parser.Parse` of markdown/parser.go as translated on this run; the translation has no partial operation left in it except the ones listed in the trusted base (`xs[0]` on a non-empty split, `%` by a unit > 1). -/
+theorem C12_parser_is_the_source (st : PState) (row : Bytes) :
+    Src.Parser.Parse (toSrc st) row = (toSrc (parse st row).1, resSrc (parse st row).2) :=
+  Parse_src st row
+
+/-- the parser every generator starts with (`md.NewParser()` returns `&Parser{}`) is the model's initial state -/
+example : toSrc {} = { isSharpRoot := false, spaces := 0, sep := [] } := rfl
 end Gtree
